@@ -78,7 +78,7 @@ func (d *DeadNonceList) VerifLen() int { return len(d.list) }
 
 // VerifResetRib replaces the global RIB with an empty one.
 func VerifResetRib() {
-	Rib = RibTable{RibEntry: RibEntry{children: map[*RibEntry]bool{}}}
+	Rib.RibEntry = RibEntry{children: map[*RibEntry]bool{}}
 }
 
 // VerifRibNodes counts RIB tree nodes (excluding the root) and those without routes and children.
